@@ -112,6 +112,15 @@ def build(rng, case):
         kw["%s_types" % kind] = [int(x) for x in rng.integers(0, k, len(terms))]
         if rng.integers(3) > 0:
             kw["%s_type_coeffs" % kind] = [coeff_string(rng, "%s%d" % (kind[0], t)) for t in range(k)]
+    if case["s"] % 5 == 2 and not case.get("_empty_label"):
+        # united-atom / coarse-grained types: a mass that is no element's (CH3 15.035, CH2 14.027, a bead of 72) - every type labelled.
+        # Elements cannot be inferred then (documented: type numbers instead); labels, masses and everything else must still survive
+        t = int(rng.integers(nt))
+        kw["atom_type_masses"] = list(kw["atom_type_masses"])
+        kw["atom_type_masses"][t] = [15.035, 13.5, 72.0, 0.5][int(rng.integers(4))]
+        kw["atom_type_labels"] = [l if l else "T%d" % i for i, l in enumerate(kw["atom_type_labels"])]
+        kw["atom_type_labels"][t] = ["CH3_sp3", "CH2", "BEAD", "Dq"][int(rng.integers(4))]
+        case["_nonatomic"] = True
     a = Atoms(**kw)
     if case["s"] % 6 == 4:
         from vmon.oracle.util import non_ascii
@@ -203,6 +212,9 @@ def compare_file_with_atoms(d, a, style, fail):
             fail("%d %s types declared but type id %d in use" % (nt, kind, int(max(types)) + 1), "type_counts")
 
 
+NONATOMIC = [False]
+
+
 def compare_loaded(b, a, style, fail, what="read back"):
     """the structure read by mofun must reproduce `a` to the printed precision"""
     if len(b) != len(a):
@@ -223,8 +235,9 @@ def compare_loaded(b, a, style, fail, what="read back"):
         fail("%s: masses differ" % what, "rb_masses")
     if [str(x) for x in b.atom_type_labels] != [str(x) for x in a.atom_type_labels]:
         fail("%s: type labels %s, wrote %s" % (what, list(b.atom_type_labels), list(a.atom_type_labels)), "rb_labels")
-    if [str(x) for x in b.atom_type_elements] != [str(x) for x in a.atom_type_elements]:
-        fail("%s: elements %s, wrote %s" % (what, list(b.atom_type_elements), list(a.atom_type_elements)), "rb_elements")
+    want_els = [str(x) for x in a.atom_type_elements] if not NONATOMIC[0] else [str(i + 1) for i in range(len(a.atom_type_elements))]
+    if [str(x) for x in b.atom_type_elements] != want_els:
+        fail("%s: elements %s, expected %s" % (what, list(b.atom_type_elements), want_els), "rb_elements")
     for kind in atomsgen.KNAMES:
         w = atomsgen.WIDTH[kind]
         x = np.asarray(getattr(b, atomsgen.ARR[kind])).reshape(-1, w)
@@ -306,6 +319,9 @@ def run_case(case, ctx):
     st = ctx.stats
     style = case["style"]
     a = build(rng, case)
+    NONATOMIC[0] = bool(case.get("_nonatomic"))
+    if NONATOMIC[0]:
+        st.count("structures_with_a_labelled_type_whose_mass_is_no_element")
     from vmon.oracle.util import flavour
     st.seen("array_flavour", flavour(a, case["s"] // 7))
     w = {"style": style, "structure": atomsgen.describe(a)}
@@ -493,6 +509,8 @@ def requirements(stats, tier):
         need.append("structures with coordinates <= -100 or >= 1000: %d" % stats.get("structures_with_coordinates_beyond_the_usual_field_width"))
     if stats.get("structures_with_non_ascii_labels_and_comments.via_save_load_path") < (5 if tier == "quick" else 500):
         need.append("structures with non-ASCII labels and comments saved to and loaded from a path: %d" % stats.get("structures_with_non_ascii_labels_and_comments.via_save_load_path"))
+    if stats.get("structures_with_a_labelled_type_whose_mass_is_no_element") < (20 if tier == "quick" else 5000):
+        need.append("structures with a labelled type whose mass is no element's: %d" % stats.get("structures_with_a_labelled_type_whose_mass_is_no_element"))
     if stats.get("structures_with_more_than_a_thousand_atoms") < (4 if tier == "quick" else 150):
         need.append("structures with more than a thousand atoms: %d" % stats.get("structures_with_more_than_a_thousand_atoms"))
     if stats.nseen("array_flavour") < 5:
